@@ -12,6 +12,7 @@ Part 2 (Nelder-Mead) and part 3 (Powell) are further below.
 -/
 import MysticVerif.Proofs.Strategy
 import MysticVerif.Proofs.RefFmin
+import MysticVerif.Proofs.NMInit
 import MysticVerif.Proofs.Powell
 import MysticVerif.Proofs.Brent
 
@@ -326,6 +327,125 @@ example : Unconstrained exObj := ⟨fun _ => rfl, rfl, fun e _ => Int.add_zero e
 example : (mysticFmin exObj exCoef 0 (fun _ => false) (fun x => x.map (· + 2)) [10] 4 100).sim
     = [([2], 1), ([6], 9)] := by decide
 example : (refFmin exObj.raw exCoef (fun _ => false) (fun x => x.map (· + 2)) [10] 4 100).iterations = 4 := by decide
+
+/-! ### the two oracles made concrete (Model/NMInit.lean)
+
+`nm_refines_ref` takes the displaced coordinates `mkVal` and the convergence test `conv` as parameters shared by the
+two programs.  They are NOT the same expressions in the two source files: the reference tests the COORDINATE for zero
+and multiplies from the left, mystic multiplies from the right and tests the PRODUCT.  The theorems below state when
+the two agree, and what both then compute: the absolute offset `zdelt` for coordinates that are exactly zero and for
+no others, the relative displacement `(1+0.05)*x` for everything else - however small. -/
+
+/-- **The initial-simplex rule, any interpretation.** If multiplying by `1+radius` neither creates nor destroys a zero
+(`isZero (x*(1+radius)) = isZero x`: true at Float for radius = 0.05 - a product with 1.05 rounds to zero only for a
+zero - and in every ring without zero divisors) and commutes, mystic's displaced coordinates are the reference's,
+with `zdelt = radius**2 * 0.1`. -/
+theorem nm_initial_simplex_rule [Add R] [Mul R] (isZero : R → Bool) (one radius tenth : R)
+    (hz : ∀ x, isZero (x * (one + radius)) = isZero x)
+    (hc : ∀ x, x * (one + radius) = (one + radius) * x) (x0 : Pt R) :
+    mysticInitVal isZero one radius tenth x0 = refInitVal isZero one radius ((radius * radius) * tenth) x0 := by
+  unfold mysticInitVal refInitVal
+  apply List.map_congr_left
+  intro x _
+  rw [hz x, hc x]
+
+/-- **`zdelt` only for exact zeros.** Over a field (`1 + radius ≠ 0`): coordinate `k` of mystic's displaced vector
+is `zdelt = radius**2 * 0.1` when `x0[k] = 0` and `(1+radius) * x0[k]` - a NON-zero number - for every other
+`x0[k]`, with no threshold of "smallness". -/
+theorem nm_zdelt_only_for_exact_zero [Field R] [DecidableEq R] (radius tenth : R) (hr : 1 + radius ≠ 0)
+    (x0 : Pt R) (k : Nat) (hk : k < x0.length) :
+    (mysticInitVal (fun v => decide (v = 0)) 1 radius tenth x0)[k]? =
+        some (if x0[k] = 0 then (radius * radius) * tenth else (1 + radius) * x0[k]) ∧
+    (x0[k] ≠ 0 → (1 + radius) * x0[k] ≠ 0) := by
+  constructor
+  · unfold mysticInitVal
+    rw [List.getElem?_map, List.getElem?_eq_getElem hk]
+    simp only [Option.map_some, decide_eq_true_eq, mul_eq_zero, hr, or_false, Option.some.injEq]
+    split_ifs
+    · rfl
+    · exact mul_comm _ _
+  · intro h
+    exact mul_ne_zero hr h
+
+/-- the same over a field, as an equality of the two programs' vectors -/
+theorem nm_initial_simplex_rule_field [Field R] [DecidableEq R] (radius tenth : R) (hr : 1 + radius ≠ 0) (x0 : Pt R) :
+    mysticInitVal (fun v => decide (v = 0)) 1 radius tenth x0
+      = refInitVal (fun v => decide (v = 0)) 1 radius ((radius * radius) * tenth) x0 := by
+  apply nm_initial_simplex_rule
+  · intro x
+    simp [mul_eq_zero, hr]
+  · intro x; exact mul_comm _ _
+
+/-- **`nm_refines_ref` with the initial simplex as each program computes it.** mystic's `fmin` with
+`val = x0*(1+radius); val[val==0] = radius**2*0.1` returns what the reference returns with
+`(1+nonzdelt)*y[k] if y[k] != 0 else zdelt`, for nonzdelt = radius and zdelt = radius**2*0.1. -/
+theorem nm_refines_ref_concrete_init [Add R] [Sub R] [Mul R] [Div R] [LT E] [DecidableLT E] [LE E] [DecidableLE E]
+    (o : Obj (Pt R) E) (h : Unconstrained o) (c : Coef R) (zero : R) (conv : List (Pt R × E) → Bool)
+    (isZero : R → Bool) (one radius tenth : R)
+    (hz : ∀ x, isZero (x * (one + radius)) = isZero x)
+    (hc : ∀ x, x * (one + radius) = (one + radius) * x)
+    (x0 : Pt R) (maxiter maxfun : Nat)
+    (hstart : nmStop conv maxiter maxfun (NM.gen0 o zero x0) 0 = false) :
+    mysticFmin o c zero conv (mysticInitVal isZero one radius tenth) x0 maxiter maxfun
+      = refFmin o.raw c conv (refInitVal isZero one radius ((radius * radius) * tenth)) x0 maxiter maxfun := by
+  rw [nm_refines_ref o h c zero conv _ x0 maxiter maxfun hstart]
+  unfold refFmin
+  rw [nm_initial_simplex_rule isZero one radius tenth hz hc x0]
+
+/-- **The convergence test is non-strict.** Over linear orders: `CandidateRelativeTolerance(xtol, ftol)` / the
+reference's `break` test holds exactly when EVERY coordinate difference to the best vertex is `<= xtol` and EVERY
+energy difference is `<= ftol` (equality at a tolerance converges), on a simplex with at least two vertices of
+dimension >= 1. -/
+theorem nm_convergence_test_iff [LinearOrder R] [Sub R] [LinearOrder E] [Sub E] (absR : R → R) (absE : E → E)
+    (xtol : R) (ftol : E) (x0 : Pt R) (f0 : E) (rest : List (Pt R × E)) :
+    crtConv absR absE xtol ftol ((x0, f0) :: rest) = true ↔
+      crtDx absR x0 rest ≠ [] ∧ rest ≠ [] ∧
+      (∀ d ∈ crtDx absR x0 rest, d ≤ xtol) ∧ (∀ p ∈ rest, absE (f0 - p.2) ≤ ftol) := by
+  unfold crtConv
+  cases hx : pyMax (crtDx absR x0 rest) with
+  | none =>
+    have : crtDx absR x0 rest = [] := by
+      cases hl : crtDx absR x0 rest with
+      | nil => rfl
+      | cons a as => rw [hl] at hx; simp [pyMax] at hx
+    simp only [hx]
+    simp [this]
+  | some dx =>
+    cases hf : pyMax (crtDf absE f0 rest) with
+    | none =>
+      have : rest = [] := by
+        cases hl : rest with
+        | nil => rfl
+        | cons a as => rw [hl] at hf; simp [pyMax, crtDf] at hf
+      simp only [hx, hf]
+      simp [this]
+    | some df =>
+      have hxne : crtDx absR x0 rest ≠ [] := by
+        intro h0; rw [h0] at hx; simp [pyMax] at hx
+      have hrne : rest ≠ [] := by
+        intro h0; rw [h0] at hf; simp [pyMax, crtDf] at hf
+      simp only [hx, hf, Bool.and_eq_true, decide_eq_true_eq]
+      rw [pyMax_le_iff _ dx xtol hx, pyMax_le_iff _ df ftol hf]
+      constructor
+      · rintro ⟨h1, h2⟩
+        refine ⟨hxne, hrne, h1, ?_⟩
+        intro p hp
+        exact h2 _ (by simp only [crtDf, List.mem_map]; exact ⟨p, hp, rfl⟩)
+      · rintro ⟨_, _, h1, h2⟩
+        refine ⟨h1, ?_⟩
+        intro b hb
+        simp only [crtDf, List.mem_map] at hb
+        obtain ⟨p, hp, rfl⟩ := hb
+        exact h2 p hp
+
+/-- non-vacuity (`Rat`, radius = 1/20, tenth = 1/10): the zero coordinate gets zdelt = 1/4000 = 0.00025, the tiny
+one 21/20 of itself; and at `Int` the convergence test accepts equality at both tolerances and rejects one above -/
+example : mysticInitVal (fun v => decide (v = 0)) (1 : Rat) (1/20) (1/10) [0, 1/1000000000, -2]
+    = [1/4000, 21/20000000000, -21/10] := by decide +kernel
+example : refInitVal (fun v => decide (v = 0)) (1 : Rat) (1/20) (1/4000) [0, 1/1000000000, -2]
+    = [1/4000, 21/20000000000, -21/10] := by decide +kernel
+example : crtConv (R := Int) (E := Int) (fun a => (a.natAbs : Int)) (fun a => (a.natAbs : Int)) 2 3 [([0, 0], 5), ([2, -1], 8), ([0, 1], 2)] = true := by decide
+example : crtConv (R := Int) (E := Int) (fun a => (a.natAbs : Int)) (fun a => (a.natAbs : Int)) 2 2 [([0, 0], 5), ([2, -1], 8), ([0, 1], 2)] = false := by decide
 
 /-! ## Powell: the staged machine of `PowellDirectionalSolver` refines the reference direction-set loop
 
